@@ -1,5 +1,5 @@
 (* C09 — the phase-space factor at the pole mass: the three variants that the K-matrix unitarity
-   theorems admit (PhaseSpaceFactor, PhaseSpaceFactorAbs, PhaseSpaceFactorComplex), regenerated from
+   theorems allow (PhaseSpaceFactor, PhaseSpaceFactorAbs, PhaseSpaceFactorComplex), regenerated from
    /repo (Gen_C11, produced by bridge/symgen_C11.py), denote the POSITIVE REAL
    rho = 2 sqrt(q^2)/sqrt(s) wherever s > 0 and q^2 > 0, i.e. above the threshold (ma+mb)^2 AND
    below the pseudo-threshold (ma-mb)^2.  Definitions and tactics are C11's (C11_base.v). *)
